@@ -3,6 +3,7 @@ package oracle
 import (
 	"errors"
 	"math/big"
+	"sync/atomic"
 )
 
 // Pt is an affine point or the point at infinity.
@@ -124,22 +125,44 @@ func (c *Curve) Mul(k *big.Int, p *Pt) *Pt {
 }
 
 // Convenience wrappers for secp256k1.
-func Add(p, q *Pt) *Pt          { return Secp.Add(p, q) }
-func Sub(p, q *Pt) *Pt          { return Secp.Sub(p, q) }
-func Neg(p *Pt) *Pt             { return Secp.Neg(p) }
-func Dbl(p *Pt) *Pt             { return Secp.Add(p, p) }
-func Mul(k *big.Int, p *Pt) *Pt { return Secp.Mul(k, p) }
-func OnCurve(p *Pt) bool        { return Secp.OnCurve(p) }
+func Add(p, q *Pt) *Pt              { return Secp.Add(p, q) }
+func Sub(p, q *Pt) *Pt              { return Secp.Sub(p, q) }
+func Neg(p *Pt) *Pt                 { return Secp.Neg(p) }
+func Dbl(p *Pt) *Pt                 { return Secp.Add(p, p) }
+func MulSlow(k *big.Int, p *Pt) *Pt { return Secp.Mul(k, p) }
+
+var mulCalls uint64
+
+// Mul returns k*p on secp256k1 through the Jacobian fast path, re-checked
+// against the affine reference on one call in 64.
+func Mul(k *big.Int, p *Pt) *Pt {
+	if k.Sign() < 0 {
+		return Mul(new(big.Int).Neg(k), Neg(p))
+	}
+	r := mulJac(k, p)
+	if atomic.AddUint64(&mulCalls, 1)%64 == 0 {
+		if !r.Eq(Secp.Mul(k, p)) {
+			panic("oracle: Jacobian and affine scalar multiplication disagree")
+		}
+	}
+	return r
+}
+func OnCurve(p *Pt) bool { return Secp.OnCurve(p) }
 
 // gPow[i] = 2^i * G, built lazily once (oracle-side speed-up for k*G;
 // cross-checked against Mul in the self-test).
 var gPow []*Pt
+var gPowJ []*jac
 
 func init() {
 	gPow = make([]*Pt, 257)
 	gPow[0] = G()
 	for i := 1; i <= 256; i++ {
 		gPow[i] = Secp.Add(gPow[i-1], gPow[i-1])
+	}
+	gPowJ = make([]*jac, 257)
+	for i := range gPow {
+		gPowJ[i] = toJac(gPow[i])
 	}
 }
 
@@ -148,6 +171,17 @@ func MulG(k *big.Int) *Pt {
 	if k.Sign() < 0 || k.BitLen() > 257 {
 		return Mul(k, G())
 	}
+	r := Infinity()
+	for i := 0; i < k.BitLen(); i++ {
+		if k.Bit(i) == 1 {
+			r = Secp.Add(r, gPow[i])
+		}
+	}
+	return r
+}
+
+// MulGSlow is the affine reference for MulG.
+func MulGSlow(k *big.Int) *Pt {
 	r := Infinity()
 	for i := 0; i < k.BitLen(); i++ {
 		if k.Bit(i) == 1 {
